@@ -109,3 +109,9 @@ Iterator.vos Iterator.vok Iterator.required_vos: Iterator.v Bytes.vos Segment.vo
 IteratorFacts.vo IteratorFacts.glob IteratorFacts.v.beautified IteratorFacts.required_vo: IteratorFacts.v Bytes.vo BytesFacts.vo Segment.vo SegmentFacts.vo Stack.vo StackFacts.vo Iterator.vo
 IteratorFacts.vio: IteratorFacts.v Bytes.vio BytesFacts.vio Segment.vio SegmentFacts.vio Stack.vio StackFacts.vio Iterator.vio
 IteratorFacts.vos IteratorFacts.vok IteratorFacts.required_vos: IteratorFacts.v Bytes.vos BytesFacts.vos Segment.vos SegmentFacts.vos Stack.vos StackFacts.vos Iterator.vos
+History.vo History.glob History.v.beautified History.required_vo: History.v 
+History.vio: History.v 
+History.vos History.vok History.required_vos: History.v 
+HistoryFacts.vo HistoryFacts.glob HistoryFacts.v.beautified HistoryFacts.required_vo: HistoryFacts.v Bytes.vo BytesFacts.vo Segment.vo SegmentFacts.vo Stack.vo StackFacts.vo Collection.vo CollectionFacts.vo Theorems.vo History.vo
+HistoryFacts.vio: HistoryFacts.v Bytes.vio BytesFacts.vio Segment.vio SegmentFacts.vio Stack.vio StackFacts.vio Collection.vio CollectionFacts.vio Theorems.vio History.vio
+HistoryFacts.vos HistoryFacts.vok HistoryFacts.required_vos: HistoryFacts.v Bytes.vos BytesFacts.vos Segment.vos SegmentFacts.vos Stack.vos StackFacts.vos Collection.vos CollectionFacts.vos Theorems.vos History.vos
